@@ -410,6 +410,19 @@ def call_ext(it: Any, f: ExtV, args: List[Any], kwargs: Dict[str, Any], node: An
         if isinstance(src, TV):
             return TV(term, shape=src.shape, dtype=src.dtype, kind=src.kind)
         return Obj(getattr(src, "cls_name", "object"), cls=getattr(src, "cls", None), term=term)
+    if name in ("torch.finfo", "torch.iinfo") and args:
+        dt = canon_dtype(args[0])
+        table = {
+            "torch.float32": dict(eps=sp.Rational(1, 2**23), tiny=sp.Rational(1, 2**126), max=(2 - sp.Rational(1, 2**23)) * 2**127, bits=32),
+            "torch.float64": dict(eps=sp.Rational(1, 2**52), tiny=sp.Rational(1, 2**1022), max=(2 - sp.Rational(1, 2**52)) * 2**1023, bits=64),
+            "torch.float16": dict(eps=sp.Rational(1, 2**10), tiny=sp.Rational(1, 2**14), max=sp.Integer(65504), bits=16),
+            "torch.bfloat16": dict(eps=sp.Rational(1, 2**7), tiny=sp.Rational(1, 2**126), max=(2 - sp.Rational(1, 2**7)) * 2**127, bits=16),
+        }
+        if dt in table:
+            d_ = dict(table[dt])
+            d_["min"] = -d_["max"]
+            d_["smallest_normal"] = d_["tiny"]
+            return Obj("torch.finfo", attrs=d_, open_attrs=False)
     if name == "torch.Size":
         s = it.concrete_iter(args[0]) if args else []
         return Shape(tuple(s)) if s is not None else Unknown("Size")
